@@ -170,9 +170,7 @@ theorem request_to_notify_method_gets_error (c : Cfg) (s : Sess) (msg : ClientMs
     ∃ d, serve c s msg = [.respond d s.sid msg.id .error] :=
   unserviceable_gets_error c s msg hid (by
     simp only [served, h]
-    split
-    · rfl
-    · split <;> simp_all)
+    split <;> rfl)
 
 /-- a malformed route (not exactly three dot-separated parts) — as long as nobody registered a
 handler for the empty type/group/method -/
@@ -222,14 +220,17 @@ theorem history_conservation (c : Cfg) (ops : List Op) (cn i : Nat) (hi : i ≠ 
     wireCount cn i (run fixed c St.init ops).out +
       wireCount cn i ((run fixed c St.init ops).pend.map Pending.wire) = reqCount cn i ops := by
   have := total_run c cn i hi ops St.init
-  simpa [total, St.init, wireCount] using this
+  unfold total at this
+  have h1 : wireCount cn i St.init.out = 0 := rfl
+  have h2 : wireCount cn i (St.init.pend.map Pending.wire) = 0 := rfl
+  omega
 
 theorem history_never_more (c : Cfg) (ops : List Op) (cn i : Nat) (hi : i ≠ 0) :
     wireCount cn i (run fixed c St.init ops).out ≤ reqCount cn i ops := by
   have := history_conservation c ops cn i hi
   omega
 
-/-- Once 40 s (the longest handler delay; the request timeout is 31 s) have passed after the last
+/-- Once 42 s (`lateMs`, the longest handler delay; the request timeout is 31 s) have passed after the last
 message, nothing is in flight and every connection has received, for every non-zero id, exactly as
 many responses as it sent requests with that id — one each when ids in flight are distinct. -/
 theorem history_exactly_one (c : Cfg) (ops : List Op) (d : Nat) (hd : lateMs ≤ d) :
@@ -252,31 +253,14 @@ theorem history_exactly_one (c : Cfg) (ops : List Op) (d : Nat) (hd : lateMs ≤
 theorem history_no_response_to_notify (c : Cfg) (ops : List Op) (cn : Nat) :
     wireCount cn 0 (run fixed c St.init ops).out = 0 := by
   have := total_run_zero c cn ops St.init
-  simp only [total, St.init, wireCount, List.filter_nil, List.length_nil, List.map_nil] at this
-  simp only [wireCount]; omega
+  unfold total at this
+  have h1 : wireCount cn 0 St.init.out = 0 := rfl
+  have h2 : wireCount cn 0 (St.init.pend.map Pending.wire) = 0 := rfl
+  omega
 
 /-! ## non-vacuity: a concrete configuration (the one of the correspondence run) -/
 
-def zoo (g m : String) : Option Handler :=
-  if g ≠ "zoo" then none
-  else if m = "echo" then some ⟨.request, .ok⟩
-  else if m = "fail" then some ⟨.request, .fail⟩
-  else if m = "boom" then some ⟨.request, .panic⟩
-  else if m = "slow" then some ⟨.request, .slow⟩
-  else if m = "late" then some ⟨.request, .late⟩
-  else if m = "tell" then some ⟨.notify, .ok⟩
-  else none
-
-def c0 : Cfg where
-  frontName := "gate-1"
-  frontType := "gate"
-  handlers := fun t g m => if t = "gate" ∨ t = "chat" then zoo g m else none
-  dir := fun n =>
-    if n = "gate-1" then some ⟨"gate", true⟩
-    else if n = "chat-1" ∨ n = "chat-2" then some ⟨"chat", true⟩
-    else if n = "chat-9" then some ⟨"chat", false⟩
-    else none
-  route := fun t s => if t = "chat" then s.key.getD "no_service" else "no_service"
+abbrev c0 : Cfg := tieCfg
 
 def s1 : Sess := ⟨7, some "chat-1"⟩
 def s0 : Sess := ⟨8, none⟩
@@ -304,8 +288,20 @@ example : serve c0 s0 ⟨0, "chat.zoo.tell", .valid 3⟩ = [] := by decide
 example : notified c0 s1 ⟨0, "gate.zoo.tell", .valid 3⟩ = some ("gate-1", "zoo", "tell", 3) := by decide
 example : c0.dir c0.frontName = some ⟨"gate", true⟩ := by decide
 example : (run fixed c0 St.init [.req s1 ⟨5, "chat.zoo.slow", .valid 1⟩, .req s0 ⟨5, "gate.zoo.late", .valid 2⟩,
-    .adv 5000, .req s1 ⟨6, "chat.zoo.late", .valid 3⟩, .adv 40000]).out =
-    [(7, 5, .data "chat-1" "zoo" "slow" 1), (7, 6, .error), (8, 5, .data "gate-1" "zoo" "late" 2)] := by decide
+    .adv 5000, .req s1 ⟨6, "chat.zoo.late", .valid 3⟩, .adv 45000]).out =
+    [(7, 5, .data "chat-1" "zoo" "slow" 1), (8, 5, .data "gate-1" "zoo" "late" 2), (7, 6, .error)] := by decide
+
+-- the conditional theorems instantiated (their hypotheses are satisfiable)
+example := request_served_by_target c0 s1 ⟨5, "chat.zoo.echo", .valid 3⟩ (by decide) "chat-1" "zoo" "echo" 3 .ok (by decide)
+example := response_origin_is_target c0 s1 ⟨5, "chat.zoo.echo", .valid 3⟩ (by decide) 0 7 5 "chat-1" "zoo" "echo" 3 (by decide)
+example := unserviceable_gets_error c0 s0 ⟨5, "chat.zoo.echo", .valid 3⟩ (by decide) (by decide)
+example := no_target_gets_error c0 ⟨9, some "chat-7"⟩ ⟨5, "chat.zoo.echo", .valid 3⟩ (by decide) (by decide)
+example := unknown_method_gets_error c0 s1 ⟨5, "chat.zoo.nosuch", .valid 3⟩ (by decide) (by decide)
+example := request_to_notify_method_gets_error c0 s1 ⟨5, "gate.zoo.tell", .valid 3⟩ (by decide) .ok (by decide)
+example := malformed_route_gets_error c0 s1 ⟨5, "gate.zoo.echo.x", .valid 3⟩ (by decide) (by decide) (by decide)
+example := handler_failure_gets_error c0 s1 ⟨5, "hall.zoo.fail", .valid 3⟩ (by decide) "hall-1" "zoo" "fail" 3 .fail (by decide) (.inl rfl)
+example := front_answers_iff_own_type c0 s1 "gate" ⟨"gate", true⟩ (by decide) rfl
+example := (history_exactly_one c0 [.req s1 ⟨5, "chat.zoo.late", .valid 1⟩, .req s1 ⟨0, "chat.zoo.tell", .valid 2⟩] 45000 (by decide)).2 7 5 (by decide)
 
 /-! ## what the two repairs changed (pre-fix behaviour kept as `serveWith ⟨false, _⟩` / `⟨_, false⟩`) -/
 
